@@ -18,9 +18,10 @@ func TestVerifC09(t *testing.T) {
 		c09ValidatePart(),
 		c09SplitPart(),
 		c09QFlightPart(),
-		c09ScramblePart(),
 		c09QMultiPart(),
 		c09QRFlightPart(),
 		c09QRandomPart(),
+		c09PackerPart(),
+		c09ScramblePart(),
 	}, func(msg string) { t.Fatal(msg) })
 }
